@@ -153,6 +153,46 @@ theorem start_three_term [Add α] (zero : α) (keep : Bool) (ops : List (Op α))
     (T' := (srun zero (SState.init keep) ops).1.T + d) (by linarith) (Nat.le_refl (srun zero (SState.init keep) ops).1.n)
   omega
 
+/-- **C16.12** (events added during playback).  Logging one more event `e` changes every sample
+`m` of the mix by exactly the item of `e` due at `m` (added last in the sum), and by nothing when
+`e` is not playing at `m`; its start is never before the moment it was added nor before the
+nearest sample of its cumulative time. -/
+theorem late_add_superposes [Add α] (zero : α) (evs : List (SEv α)) (e : SEv α) (m : Nat) :
+    outAt zero m (evs ++ [e]) =
+      match term m e with
+      | some v => outAt zero m evs + v
+      | none => outAt zero m evs := by
+  unfold outAt
+  rw [List.filterMap_append, List.foldl_append]
+  cases ht : term m e <;> simp [ht]
+
+theorem start_never_before_added (T : Rat) (n : Nat) :
+    n ≤ startTime T n ∧ nearest T ≤ (startTime T n : Int) ∧
+      ((startTime T n : Int) = nearest T ∨ startTime T n = n) := by
+  unfold startTime; omega
+
+/-- **C16.13** ("playing" and "pending" in the code are what the log says).  After any history
+that has not ended the stream, `_not_playing` holds exactly the logged events whose start is still
+ahead (`n ≤ start_i`) and `_playing` exactly those that started and have not been found exhausted
+(`start_i < n ≤ start_i + len_i`), `n` = samples delivered. -/
+theorem container_sizes [Add α] (zero : α) (keep : Bool) (ops : List (Op α))
+    (h : (prun zero (PState.init keep) ops).1.ended = false) :
+    (prun zero (PState.init keep) ops).1.notPlaying.length =
+        (srun zero (SState.init keep) ops).1.evs.countP
+          (fun e => decide ((srun zero (SState.init keep) ops).1.n ≤ e.start)) ∧
+    (prun zero (PState.init keep) ops).1.playing.length =
+        (srun zero (SState.init keep) ops).1.evs.countP
+          (fun e => decide (e.start < (srun zero (SState.init keep) ops).1.n ∧
+            (srun zero (SState.init keep) ops).1.n ≤ e.start + e.data.length)) := by
+  obtain ⟨_, h2, _⟩ := prun_refines zero ops (PState.init keep : PState α) (pinv_init keep)
+  rw [absP_init] at h2
+  have hsim := (run_sim zero ops _ _ (sim_init keep)).2
+  rw [← h2] at hsim
+  rcases hsim with hdead | hlive
+  · exact absurd hdead.1 (by simp [absP, h])
+  · have := live_sizes hlive
+    simpa [absP, absQ, absPl] using this
+
 /-! non-vacuity: the statements are about non-trivial inputs -/
 
 -- the docstring example: [-1, 1, 4, 1, -3, -5, -7, -1], then the end
@@ -193,6 +233,9 @@ example : keepOn ([.add 1 [5], .setKeep true, .next] : List (Op Int)) := by simp
 -- the hypotheses of finite_mix_batch / no_drift hold for the batch used above
 example : ∀ p ∈ [((1:Rat)/2, [(1:Int)]), (1/2, [10]), (1/2, [100, 100]), (1, [1000])], 0 ≤ p.1 := by
   intro p hp; simp at hp; rcases hp with rfl | rfl | rfl | rfl <;> norm_num
+-- container_sizes: a live state with one event playing and one pending
+example : (prun (0 : Int) (PState.init false) [.add 0 [1, 1, 1], .add 5 [2], .next]).1.ended = false := by
+  decide +kernel
 -- negative_delta_rejected: the hypothesis is satisfiable
 example : ((-1 : Rat)/2) < 0 := by norm_num
 
